@@ -2,7 +2,7 @@
    Part A: the abstract worklist computes exactly the reachable set (sound, complete, duplicate free,
            never out of fuel once fuel > |universe|).
    Part B: Model/GC.v's push / wl are an instance; [used_reach], [used_no_fuel], [used_closed],
-           [used_precise]; [gc] keeps exactly the live ids that are in the used set. *)
+           [used_precise]; [gc_sweep] keeps exactly the live ids that are in the used set. *)
 From Coq Require Import List NArith Arith Lia Bool Permutation.
 Import ListNotations.
 From WV Require Import Gen.Ops Model.Common Model.IR Model.Arena Model.Traversal Model.ModuleM Model.ParseM Model.EmitM Model.GC.
@@ -468,7 +468,7 @@ Proof.
   right. exists mid, v, rest. repeat split; [discriminate|congruence].
 Qed.
 
-(* ------------------------------------------------------------------ B.5 gc keeps exactly the used ids *)
+(* ------------------------------------------------------------------ B.5 gc_sweep keeps exactly the used ids *)
 Lemma delete_contains A (f : A -> A) (a a' : tarena A) id id' :
   delete f a id = Some a' -> contains a' id' = contains a id' && negb (Nat.eqb id' id).
 Proof.
@@ -559,8 +559,8 @@ Lemma delete_unused_used A (a a' : tarena A) u s :
                  contains a (N.to_nat id) = true /\ mem_ent (s, id) u = true.
 Proof. intros H id. rewrite (delete_unused_spec _ _ _ _ H), used_of_mem. reflexivity. Qed.
 
-(* the shape of a successful [gc] *)
-Lemma gc_inv m m' u : gc m = Ok m' -> Model.GC.used m = Ok u ->
+(* the shape of a successful [gc_sweep] *)
+Lemma gc_inv m m' u : gc_sweep m = Ok m' -> Model.GC.used m = Ok u ->
   exists ia ta ga ma da ea tya fa,
     delete_unused (m_tables m) (used_of u S_table) = Ok ta /\
     delete_unused (m_globals m) (used_of u S_global) = Ok ga /\
@@ -571,7 +571,7 @@ Lemma gc_inv m m' u : gc m = Ok m' -> Model.GC.used m = Ok u ->
     delete_unused (m_funcs m) (used_of u S_func) = Ok fa /\
     m' = set_funcs (set_types (set_elements (set_data (set_memories (set_globals (set_tables (set_imports m ia) ta) ga) ma) da) ea) tya) fa.
 Proof.
-  intros H Hu. unfold gc in H. rewrite Hu in H. cbn [rbind] in H.
+  intros H Hu. unfold gc_sweep in H. rewrite Hu in H. cbn [rbind] in H.
   repeat match type of H with
          | rbind ?r _ = Ok _ => let E := fresh "E" in destruct r eqn:E; cbn [rbind] in H; [|discriminate H|discriminate H]
          end.
@@ -579,7 +579,7 @@ Proof.
 Qed.
 
 (* the fields of the result *)
-Lemma gc_fields m m' u : gc m = Ok m' -> Model.GC.used m = Ok u ->
+Lemma gc_fields m m' u : gc_sweep m = Ok m' -> Model.GC.used m = Ok u ->
   delete_unused (m_funcs m) (used_of u S_func) = Ok (m_funcs m') /\
   delete_unused (m_tables m) (used_of u S_table) = Ok (m_tables m') /\
   delete_unused (m_globals m) (used_of u S_global) = Ok (m_globals m') /\
@@ -594,7 +594,7 @@ Proof.
   split; [exact Ed|]. split; [exact Ee|exact Ety].
 Qed.
 
-Theorem gc_keeps_exactly_used : forall m m', gc m = Ok m' -> forall u, Model.GC.used m = Ok u ->
+Theorem gc_keeps_exactly_used : forall m m', gc_sweep m = Ok m' -> forall u, Model.GC.used m = Ok u ->
   (forall id, contains (m_funcs m') (N.to_nat id) = true <->
               (contains (m_funcs m) (N.to_nat id) = true /\ mem_ent (S_func, id) u = true)) /\
   (forall id, contains (m_tables m') (N.to_nat id) = true <->
@@ -615,15 +615,15 @@ Proof.
   split; [exact (delete_unused_used _ _ _ _ _ Ed)|exact (delete_unused_used _ _ _ _ _ Ee)].
 Qed.
 
-(* gc never touches exports, start, custom sections, configuration, locals, producers (nor debug
+(* gc_sweep never touches exports, start, custom sections, configuration, locals, producers (nor debug
    sections, the module name, the code section offset) *)
-Theorem gc_preserves : forall m m', gc m = Ok m' ->
+Theorem gc_preserves : forall m m', gc_sweep m = Ok m' ->
   m_exports m' = m_exports m /\ m_start m' = m_start m /\ m_customs m' = m_customs m /\
   m_config m' = m_config m /\ m_locals m' = m_locals m /\ m_producers m' = m_producers m /\
   m_debug m' = m_debug m /\ m_name m' = m_name m /\ m_code_section_offset m' = m_code_section_offset m.
 Proof.
   intros m m' H. destruct (Model.GC.used m) as [u| |] eqn:Hu;
-    [|unfold gc in H; rewrite Hu in H; discriminate H|unfold gc in H; rewrite Hu in H; discriminate H].
+    [|unfold gc_sweep in H; rewrite Hu in H; discriminate H|unfold gc_sweep in H; rewrite Hu in H; discriminate H].
   destruct (gc_inv m m' u H Hu) as (ia & ta & ga & ma & da & ea & tya & fa & _ & _ & _ & _ & _ & _ & _ & ->).
   split; [reflexivity|]. split; [reflexivity|]. split; [reflexivity|]. split; [reflexivity|].
   split; [reflexivity|]. split; [reflexivity|]. split; [reflexivity|]. split; reflexivity.
